@@ -9,6 +9,7 @@ from __future__ import annotations
 import random
 
 from impl import IRI, BlankNode, DefaultGraph, Literal, Opts, Quad, Triple, UNSUPPORTED
+from common import bn_id, iri_s, lit_dt, lit_lang, lit_lex  # noqa: E402
 
 XSD = "http://www.w3.org/2001/XMLSchema#"
 PREFIXES = ["http://a.example/", "http://a.example/ns#", "http://b.example/x/", "urn:x:", "", "http://ü.example/ü/",
@@ -87,8 +88,8 @@ class G:
                 p = prev[1]
             if r.random() < 0.15:
                 o = prev[2]
-                if isinstance(o, Literal) and o._langtag and len(self.langs) > len(LANGS) and r.random() < 0.5:
-                    o = Literal(o._lex, langtag=o._langtag.swapcase())
+                if isinstance(o, Literal) and lit_lang(o) and len(self.langs) > len(LANGS) and r.random() < 0.5:
+                    o = Literal(lit_lex(o), langtag=lit_lang(o).swapcase())
         return Triple(s, p, o)
 
     def quad(self, prev=None):
@@ -125,12 +126,12 @@ def distinct_needs(st) -> tuple[int, int, int]:
 
     def walk(t):
         if isinstance(t, IRI):
-            p, n = split_iri(t._iri)
+            p, n = split_iri(iri_s(t))
             pf.add(p)
             nm.add(n)
         elif isinstance(t, Literal):
-            if t._datatype and t._datatype != XSD + "string":
-                dt.add(t._datatype)
+            if lit_dt(t) and lit_dt(t) != XSD + "string":
+                dt.add(lit_dt(t))
         elif isinstance(t, Triple):
             for x in t:
                 walk(x)
@@ -146,7 +147,7 @@ def full_iri_needs(st) -> int:
 
     def walk(t):
         if isinstance(t, IRI):
-            names.add(t._iri)
+            names.add(iri_s(t))
         elif isinstance(t, Triple):
             for x in t:
                 walk(x)
@@ -179,9 +180,9 @@ def wf_term(t) -> bool:
     """Term.WF of DESIGN §6: language tag non-empty if present, not both language and datatype,
     datatype non-empty if present."""
     if isinstance(t, Literal):
-        if t._langtag is not None and (t._langtag == "" or t._datatype is not None):
+        if lit_lang(t) is not None and (lit_lang(t) == "" or lit_dt(t) is not None):
             return False
-        if t._datatype is not None and t._datatype == "":
+        if lit_dt(t) is not None and lit_dt(t) == "":
             return False
     if isinstance(t, Triple):
         return all(wf_term(x) for x in t)
@@ -190,8 +191,8 @@ def wf_term(t) -> bool:
 
 def normalize_term(t):
     """xsd:string typed literal == plain literal."""
-    if isinstance(t, Literal) and t._datatype == XSD + "string":
-        return Literal(t._lex, t._langtag, None)
+    if isinstance(t, Literal) and lit_dt(t) == XSD + "string":
+        return Literal(lit_lex(t), lit_lang(t), None)
     if isinstance(t, Triple):
         return Triple(*(normalize_term(x) for x in t))
     return t
